@@ -180,6 +180,30 @@ Theorem c06_action_error_aborts State (E : env State) ms e rest stack st tm st' 
 Proof. exact (fun Hm => walker_exec_error State E ms rest stack st tm Hm e st' c). Qed.
 Print Assumptions c06_action_error_aborts.
 
+(** A sequence used as a plain action of another sequence ([exec: $seq], run
+    by Sequence.Exec on a fresh walker): an error raised inside it, at any
+    depth, aborts the calling sequence with everything pending and is
+    reported — whatever kind of error value it is (errors are opaque here). *)
+Theorem c06_nested_sequence_error_aborts State (E : env State) :
+  wrappers_extensional E ->
+  forall ms tgt rest k st tm t s c,
+    match_loop E ms st = (tm, VTrue) ->
+    spec_rules E tgt done st = (t, s, Err c) ->
+    machine E (RCons (Rule ms (Call tgt)) rest) k st = (tm ++ t, s, Some c).
+Proof. exact (call_error_aborts State E). Qed.
+Print Assumptions c06_nested_sequence_error_aborts.
+
+(** However else the called sequence ends (accept/reject/return inside it end
+    the called sequence only), the caller goes on with its next rule. *)
+Theorem c06_nested_sequence_then_continue State (E : env State) :
+  wrappers_extensional E ->
+  forall ms tgt rest k st tm t s r,
+    match_loop E ms st = (tm, VTrue) ->
+    spec_rules E tgt done st = (t, s, r) -> (forall c, r <> Err c) ->
+    machine E (RCons (Rule ms (Call tgt)) rest) k st = pre (tm ++ t) (machine E rest k s).
+Proof. exact (call_then_continue State E). Qed.
+Print Assumptions c06_nested_sequence_then_continue.
+
 (** ... from any depth: if a rule list ends with [Err c], nothing pending
     behind it runs and the caller gets [c]. *)
 Theorem c06_error_aborts_everything State (E : env State) :
